@@ -56,6 +56,7 @@ func (w *WaterMark) Init(closer *Closer) {
 // lets a concurrent Done move doneUntil past it.
 func (w *WaterMark) Begin(index uint64) {
 	w.addIndex(index, 1)
+	verifYield("wm.begin.mid")
 	w.setLastIndex(index)
 	w.tryAdvance()
 }
@@ -162,6 +163,7 @@ func (w *WaterMark) setLastIndex(index uint64) {
 
 func (w *WaterMark) tryAdvance() {
 	for {
+		verifYield("wm.advance.loop")
 		doneUntil := w.DoneUntil()
 		lastIndex := w.LastIndex()
 		if doneUntil >= lastIndex {
